@@ -324,11 +324,18 @@ pub fn gen_siblings(src: &mut Src, opts: &LayoutOpts) -> GenLayout {
   // three modifier-like keys: standard modifiers (a plain press of one lifts nothing) and 0-2
   // keys such as CAPSLOCK (which are ordinary keys to the mapper unless mapped)
   let n_like = src.weighted(&[40, 45, 15]);
-  let mut keys: Vec<KeyCode> = src.distinct(&[LEFTSHIFT, RIGHTALT, LEFTCTRL, RIGHTSHIFT], 3 - n_like);
-  keys.extend(src.distinct(&[CAPSLOCK, TAB], n_like));
-  keys.extend(src.distinct(&[A, B, Q], 2));
-  let modlike: Vec<KeyCode> = keys[..3].to_vec();
-  let ordinary: Vec<KeyCode> = keys[3..].to_vec();
+  // three modifier-like and two ordinary keys, or (35 %) two and three
+  let n_modlike = if src.chance(35) { 2 } else { 3 };
+  let n_like = n_like.min(n_modlike);
+  let mut keys: Vec<KeyCode> = src.distinct(&[LEFTSHIFT, RIGHTALT, LEFTCTRL, RIGHTSHIFT], n_modlike - n_like);
+  // (Z: an ordinary letter used as a layer key, as SPACE or a home-row key is in real layouts)
+  keys.extend(src.distinct(&[CAPSLOCK, TAB, Z], n_like));
+  keys.extend(src.distinct(&[A, B, Q], 5 - n_modlike));
+  let modlike: Vec<KeyCode> = keys[..n_modlike].to_vec();
+  let ordinary: Vec<KeyCode> = keys[n_modlike..].to_vec();
+  // one output modifier from outside the pool
+  let outside: Vec<KeyCode> = [LEFTALT, LEFTMETA, RIGHTCTRL].to_vec();
+  let outside_mod = src.pick(&outside);
   let n = src.range(3, 7);
   let mut mappings: Vec<Mapping> = Vec::new();
   let mut next_tag = 0usize;
@@ -369,8 +376,8 @@ pub fn gen_siblings(src: &mut Src, opts: &LayoutOpts) -> GenLayout {
     };
     prefix.truncate(3);
     let mut mod_pool: Vec<KeyCode> = prefix.clone();
-    mod_pool.push(modlike[0]);
-    mod_pool.push(modlike[1]);
+    mod_pool.extend(modlike.iter().cloned());
+    mod_pool.push(outside_mod);
     let to: Vec<KeyCode> = match src.weighted(&[30, 15, 12, 25, 8, 10]) {
       0 => {
         next_tag += 1;
@@ -405,7 +412,7 @@ pub fn gen_siblings(src: &mut Src, opts: &LayoutOpts) -> GenLayout {
         absorbing.push(prefix[0]);
       }
     }
-    let repeat = gen_repeat(src, &[modlike[0], F1, modlike[2]], &[65, 10, 25], i as i32);
+    let repeat = gen_repeat(src, &[modlike[0], F1, modlike[modlike.len() - 1]], &[65, 10, 25], i as i32);
     let mut from = prefix;
     from.push(final_key);
     mappings.push(Mapping { from, to: to_d, repeat, absorbing });
@@ -518,11 +525,17 @@ pub fn gen_mod_dense(src: &mut Src, opts: &LayoutOpts) -> GenLayout {
   for i in 0..n {
     let final_key = keys[src.below(keys.len())];
     let mut from: Vec<KeyCode> = Vec::new();
-    if src.chance(20) {
-      let m = keys[src.below(keys.len())];
-      if m != final_key {
-        from.push(m);
+    match src.weighted(&[60, 20, 20]) {
+      1 => {
+        let m = keys[src.below(keys.len())];
+        if m != final_key {
+          from.push(m);
+        }
       }
+      // a chord on one of the output modifiers themselves (Shift+key -> Shift+other key, or a key
+      // without the Shift): the user's own modifier and a mapping's modifier are the same key
+      2 => from.push(if src.chance(65) { s_mod } else { t_mod }),
+      _ => {}
     }
     from.push(final_key);
     let to: Vec<KeyCode> = match src.weighted(&[22, 22, 8, 14, 14, 5, 15]) {
@@ -538,7 +551,7 @@ pub fn gen_mod_dense(src: &mut Src, opts: &LayoutOpts) -> GenLayout {
     mappings.push(Mapping { from, to, repeat, absorbing: vec![] });
   }
   let layout = Layout { mappings };
-  finish(src, layout, "modifier-dense", &[s_mod], opts, true)
+  finish(src, layout, "modifier-dense", &[s_mod, t_mod], opts, true)
 }
 
 // *huge*: hundreds of mappings (counts around 256 and 512), every one with its own trigger, its
